@@ -47,36 +47,48 @@ CHECKS = {
                 'a yield point). All placements of a packer prefix inside a reader/writer and vice versa (forms A/B, exhaustive '
                 'in both positions), sampled 3-segment and 3-actor schedules, for 12 reader/writer kinds x packer variants. TLC '
                 'evaluates ReadCorrect / WriteKeyCorrect / NoUnexpectedFailure / FinalStateOK (ConcTrace.tla) on every distinct '
-                'logical trace.',
+                'logical trace. Design level: Dos.tla (step-level writer / reader / seeking reader / packer) model-checked by TLC '
+                '(MC_Conc, MC_Conc_pinned, MC_Conc_seek; deviation configs must fail; thorough: liveness EveryCallReturns under '
+                'weak fairness); 300 scheduled executions are checked step by step against Dos (DosConf); Dos refines DosProto '
+                '(TLC), whose invariant is inductive (Apalache).',
         'design_ref': 'DESIGN.md section 6 C04',
         'note': 'granularity = Python-level I/O calls and SQL statements (steps inside SQLite are atomic); single process, one '
                 'connection per actor; schedules with more than 3 context switches are only sampled.',
-        'technique': 'systematic schedule enumeration on the real code under an interposition scheduler; recorded traces '
-                     'validated by TLC against the TLA+ monitor ConcTrace',
+        'technique': 'TLA+ step-level model Dos model-checked with TLC (+ inductive invariant of DosProto with Apalache, '
+                     'refinement with TLC); systematic schedule enumeration on the real code under an interposition scheduler; '
+                     'recorded traces validated by TLC against the monitor ConcTrace and, step by step, against Dos (DosConf)',
     },
     'C05': {
         'category': 'model_checking',
         'text': 'For 33 operation scenarios (quick; 37 thorough) the folder is snapshotted before every kernel-level I/O call (raw write, truncate, '
                 'fsync, rename/replace/link/unlink/mkdir, open-for-write, close, SQL statement, COMMIT) plus torn-write images; '
                 'each image is projected raw and read through a fresh handle; TLC evaluates Recoverable / NoTornObject / '
-                'ReadsSafe (CrashTrace.tla) on every image.',
+                'ReadsSafe (CrashTrace.tla) on every image; new handles rerun the operation on the images. Design level: Dos '
+                '(MC_Crash*) and DosMaint (every maintenance operation compiled to its instruction program, incl. pack roll-over '
+                'and import batching, Stop after any instruction) model-checked by TLC with deviations that must fail; the '
+                'calls recorded for 87 cases must equal the compiled programs (MaintConf).',
         'design_ref': 'DESIGN.md section 6 C05',
         'note': 'a copy of the folder taken before call k is exactly what a kill at that boundary leaves (user-space buffers are '
                 'not on disk); SQLite recovery of the copied WAL trusted; scenarios enumerate operation kinds and parameter '
                 'variants, not all pre-states.',
-        'technique': 'exhaustive crash-point enumeration on the real code via interposition; images validated by TLC against the '
-                     'TLA+ monitor CrashTrace',
+        'technique': 'TLA+ step-level models Dos / DosMaint model-checked with TLC under Stop after any step; conformance of '
+                     'recorded call sequences to the compiled programs (MaintConf); exhaustive crash-point enumeration on the '
+                     'real code via interposition, images validated by TLC against the monitor CrashTrace',
     },
     'C06': {
         'category': 'model_checking',
         'text': 'Same enumeration as C05 with the power-loss image: every regular non-SQLite file keeps only the bytes present at '
                 'its last fsync (pre-existing content counts as synced, never-synced files are empty), names and committed '
-                'index transactions survive. TLC evaluates DurableVisible / NoTornObject / ReadsSafe on every image.',
+                'index transactions survive. TLC evaluates DurableVisible / NoTornObject / ReadsSafe on every image; the recorded '
+                'write/truncate/fsync/bind/unbind/commit events are also replayed through the inode machine DurTrace. Design '
+                'level: Dos and DosMaint with PowerLoss after any step (TLC; deviations SkipPackFsync, RenameBeforeFsync, '
+                'CommitBeforeFsync, ImportFsyncOnlyLast must fail).',
         'design_ref': 'DESIGN.md section 6 C06',
         'note': 'the fault model is the one stated by the property; fsync calls are observed per inode by the shim; default '
                 'fsync settings only.',
-        'technique': 'exhaustive crash-point enumeration with an fsync-shadow power-loss model; images validated by TLC against '
-                     'CrashTrace',
+        'technique': 'TLA+ step-level models Dos / DosMaint model-checked with TLC under PowerLoss; exhaustive crash-point '
+                     'enumeration with an fsync-shadow power-loss model on the real code; images validated by TLC against '
+                     'CrashTrace, recorded events against the event monitor DurTrace',
     },
     'C07': {
         'category': 'model_checking',
@@ -95,7 +107,7 @@ CHECKS = {
         'category': 'model_checking',
         'text': 'MC_Multi (DosSeq with three handles, pinned WAL snapshots per handle) is checked exhaustively to depth 7 by TLC '
                 '(ViewsEqualMap, ListEqualsMap for every handle). Multi-handle histories (random and TLC-simulated) run on the '
-                'real library with view calls through long-open handles as explicit steps; TLC evaluates C08_HandleViews on '
+                'real library with view calls (incl. listings abandoned after the first item) through long-open handles as explicit steps; TLC evaluates C08_HandleViews on '
                 'every recorded state and checks conformance to the model.',
         'design_ref': 'DESIGN.md section 6 C08', 'note': SEQ_NOTE, 'technique': SEQ_TECH,
     },
@@ -124,7 +136,7 @@ CHECKS = {
         'text': '(i) validate() is recorded after every step of every history and must be clean (C12_ValidateClean). (ii) every '
                 'single damage (a bit of each byte of each loose file and each referenced pack byte, truncations, +-1/flip on '
                 'every field of every index row) is applied to a copy of a container; ground truth from the raw projection; '
-                'TLC evaluates NeverCleanOnDamage (DamageTrace.tla) on every line.',
+                'TLC evaluates NeverCleanOnDamage and NamesTheObjectOrFails (DamageTrace.tla) on every line.',
         'design_ref': 'DESIGN.md section 6 C12',
         'note': 'quick flips one random bit per byte, thorough all 8; the quantification over bit positions is input '
                 'enumeration by the harness, the specification contributes the classification and the oracle rule.',
@@ -135,7 +147,8 @@ CHECKS = {
         'category': 'model_checking',
         'text': 'AppendOnly / OnlyLastPackGrows (action properties) and PackNumbering (invariant) of DosSeq are checked by TLC; '
                 'on recorded histories without repack (small pack targets, re-opened handles) TLC evaluates the same predicates '
-                'on byte-level before/after facts of every pack file.',
+                'on byte-level before/after facts of every pack file. Lock files left by killed writers are environment steps of '
+                'the model (MC_SeqLocks) and of the histories: the next pack-writing call must be refused and change nothing.',
         'design_ref': 'DESIGN.md section 6 C13', 'note': SEQ_NOTE, 'technique': SEQ_TECH,
     },
     'C14': {
@@ -151,19 +164,27 @@ CHECKS = {
                 'the SQLite dump call a hook at each of the 6 boundaries of the copy phases, where the concurrent steps of '
                 'other (long-open) handles - loose adds, pack_all_loose with/without per-pack cleaning, clean_storage, direct-'
                 'to-pack adds - are placed in every order-preserving assignment, for full and incremental backups. TLC '
-                'evaluates Complete / ExposedReadCorrectly / ValidateClean / IndexOK (BackupTrace.tla) on every backup.',
+                'evaluates Complete / ExposedReadCorrectly / ValidateClean / IndexOK (BackupTrace.tla) on every backup. Design '
+                'level: DosBackup (the phases, file-by-file loose copy, partial pack copy, rsync quick check with --link-dest, '
+                'against add / pack / clean / direct-add steps) model-checked by TLC, four deviations must fail; every real '
+                'backup is replayed as DosBackup actions (BackupConf); the counterexample of the incremental quick-check '
+                'deviation is replayed on the real code with both index dumps in the same second.',
         'design_ref': 'DESIGN.md section 6 C15',
         'note': 'placements are at phase boundaries, not inside the copy of a single phase (rsync internals are not scheduled); '
                 'a backup that fails is outside the property and only counted.',
-        'technique': 'systematic placement of concurrent steps at the copy-phase boundaries of the real backup; recorded backups '
-                     'validated by TLC against the TLA+ monitor BackupTrace',
+        'technique': 'TLA+ model DosBackup model-checked with TLC; systematic placement of concurrent steps at the copy-phase '
+                     'boundaries of the real backup; recorded backups validated by TLC against the monitor BackupTrace and, '
+                     'action by action, against DosBackup (BackupConf); TLC counterexample replayed on the code',
     },
     'C16': {
         'category': 'model_checking',
         'text': 'Merge.tla (transcription of detect_where_sorted) is model-checked for all pairs of sorted unique sequences over '
                 '1..5 and all pairs of sequences of length <= 3 over 1..3; every terminal state of the TLC graph is replayed on '
                 'the real helper. Bulk calls under default and lowered thresholds are recorded and TLC evaluates '
-                'BulkIsPointwise / EachKeyOnce / FlagsPositional / SameOutcome (BulkTrace.tla).',
+                'BulkIsPointwise / EachKeyOnce / FlagsPositional / SameOutcome (BulkTrace.tla). Bulk.tla transcribes the bulk '
+                'lookup generator (IN-chunks / sorted scan, loose pass, retry on a fresh session, missing keys): TLC checks '
+                'EachKeyOnce / Pointwise for all request sequences of length <= 4 and three deviations must fail; the phase '
+                'order of recorded results is checked against it.',
         'design_ref': 'DESIGN.md section 6 C16',
         'note': 'thresholds are class attributes lowered from the harness; the real 950 threshold is crossed once (thorough: 9500).',
         'technique': 'TLA+ transcription model-checked with TLC and replayed into the code; recorded bulk calls validated by TLC',
@@ -172,12 +193,14 @@ CHECKS = {
         'category': 'model_checking',
         'text': 'For each scenario every I/O-relevant call (open, raw write, truncate, fsync, rename/replace/link/unlink/mkdir, '
                 'SQL statement, COMMIT) fails once; outcome, raw projection, fresh-handle reads and the rerun through a new '
-                'handle are recorded; TLC evaluates CompletesOrRaises / StoreIntact / ReadsSafe / RerunOK on every fault point.',
+                'handle are recorded; TLC evaluates CompletesOrRaises / StoreIntact / ReadsSafe / RerunOK on every fault point '
+                '(EIO / OperationalError, and PermissionError on loose-file calls). Design level: Dos with Fault and DosMaint '
+                'with Stop after any instruction (TLC).',
         'design_ref': 'DESIGN.md section 6 C17',
         'note': 'faults are injected at the Python call boundary (OSError EIO / OperationalError); single-fault sequences only, '
                 'as the property states.',
-        'technique': 'exhaustive single-fault enumeration on the real code via interposition; outcomes validated by TLC against '
-                     'the TLA+ monitor CrashTrace',
+        'technique': 'TLA+ step-level models Dos / DosMaint model-checked with TLC under a failing step; exhaustive single-fault '
+                     'enumeration on the real code via interposition; outcomes validated by TLC against the monitor CrashTrace',
     },
     'C18': {
         'category': 'model_checking',
